@@ -118,7 +118,7 @@ class ExprMixin:
             self._assuming -= 1
 
     # ------------------------------------------------------------------
-    def truthy(self, v: SV):
+    def truthy(self, v: SV, st=None):
         t = v.t
         if isinstance(t, TBool):
             return v.z
@@ -133,8 +133,15 @@ class ExprMixin:
         if isinstance(t, TNone):
             return z3.BoolVal(False)
         if isinstance(t, TOpt):
-            return z3.And(z3.Not(sym.opt_is_none(v)), self.truthy(sym.opt_val(v)))
+            return z3.And(z3.Not(sym.opt_is_none(v)), self.truthy(sym.opt_val(v), st))
         if isinstance(t, TRef):
+            # a class that declares the ghost field `_truthy` has a __bool__ / __len__: bool(x) is that field (a function of
+            # the object's state; whoever changes the object lists the field in its frame).  Every other object is true.
+            fd = self.field_decl(t.cls, "_truthy")
+            if fd is not None:
+                if st is None:
+                    raise EngineError(f"truthiness of an object of class {t.cls} (ghost field _truthy) without a state")
+                return st.load(v.z, fd[0], fd[1]).z
             return z3.BoolVal(True)
         if isinstance(t, TDict):
             return z3.Length(v.extra["keys"]) > 0
@@ -352,7 +359,7 @@ class ExprMixin:
                 finally:
                     st.guards.pop()
                 return [(st, z3.Implies(a, b))]
-        return self.bind(self.ev(e, st), lambda s, v: [(s, self.truthy(v))])
+        return self.bind(self.ev(e, st), lambda s, v: [(s, self.truthy(v, s))])
 
     # ------------------------------------------------------------------
     def ev(self, e, st: State):
@@ -518,12 +525,24 @@ class ExprMixin:
                     pieces.append(v.z)
                 elif p.conversion == -1 and p.format_spec is None and isinstance(v.t, TInt):
                     pieces.append(self.dec_str(v.z, st))
+                elif p.conversion == -1 and p.format_spec is None and self.ghost_str(v, st) is not None:
+                    pieces.append(self.ghost_str(v, st))
                 else:
                     exact = False
         if exact and pieces:
             z = z3.Concat(*pieces) if len(pieces) > 1 else pieces[0]
             return SV(STR, z)
         return sym.fresh(STR, "fstr")
+
+    def ghost_str(self, v, st):
+        """str(x) / format(x, '') of an object whose class declares the ghost field `_str` (its __str__, a function of the
+        object's state and nothing else; object.__format__ with an empty spec is str(self))."""
+        if not isinstance(v.t, TRef):
+            return None
+        fd = self.field_decl(v.t.cls, "_str")
+        if fd is None or not is_strlike(fd[1]):
+            return None
+        return st.load(v.z, fd[0], fd[1]).z
 
     def dec_str(self, n, st):
         """str(n) for an int: uninterpreted, injective on naturals via inverse function."""
@@ -568,7 +587,7 @@ class ExprMixin:
             if isinstance(v, Raised):
                 out.append((s, v))
                 continue
-            c = self.truthy(v)
+            c = self.truthy(v, s)
             for branch, take_head in ((c, not is_and), (z3.Not(c), is_and)):
                 s2 = s.copy()
                 s2.assume(branch)
@@ -755,7 +774,7 @@ class ExprMixin:
             if fs is None or not fs.pure:
                 raise EngineError(f"'in' on an object of class {t.cls} (no pure assumed __contains__)")
             rs = self.call_contract(fs, [container, x], {}, st, ast.Constant(value=None), params=fs.types.get("__params__"))
-            return self.truthy(rs[-1][1])
+            return self.truthy(rs[-1][1], st)
         if isinstance(t, TConst):
             items = None
             if container.const is not None:
